@@ -85,7 +85,7 @@ NAMES = ["a", "é", "n m", "x;y", "'", "=", "名", "a*", "𝄞", "", "%", "%2", 
 TA = ["a", "\r", "\n", "-", " ", "é", '"', "%"]
 BA = [b"a", b"\r", b"\n", b"-", b"\x00", b"\xff"]
 CTYPES = [None, "text/plain", "text/plain; charset=iso-8859-1"]
-SPLITS = ["whole", "halves", "empty-first", "empty-last"]
+SPLITS = ["whole", "halves", "empty-first", "empty-last", "bytewise"]
 BIG = [40_000, 600_000]
 
 
@@ -136,7 +136,7 @@ def run_sansio(parts, boundary: str, split: str):
         else:
             out.append(enc.send_event(mp.Field(name=name, headers=h)))
         data = as_bytes(kind, payload, ctype)
-        if split == "whole":
+        if split in ("whole", "bytewise"):
             chunks = [(data, False)]
         elif split == "halves":
             k = len(data) // 2
@@ -150,13 +150,25 @@ def run_sansio(parts, boundary: str, split: str):
     out.append(enc.send_event(mp.Epilogue(data=b"")))
     body = b"".join(out)
     dec = mp.MultipartDecoder(b)
-    dec.receive_data(body)
-    dec.receive_data(None)
+    # "bytewise": the encoded body reaches the decoder one byte per receive_data() call (only for
+    # bodies of moderate size) - parsing a form incrementally is still parsing it
+    if split == "bytewise" and len(body) <= 600:
+        feed = [body[i : i + 1] for i in range(len(body))] + [None]
+    else:
+        feed = [body, None]
+    feed.reverse()
+    dec.receive_data(feed.pop())
     got: list = []
     cur = None
     try:
         while True:
             ev = dec.next_event()
+            if isinstance(ev, mp.NeedData):
+                if not feed:
+                    got.append(["EXC", "decoder still needs data after the end of input", None, None, b"", False])
+                    break
+                dec.receive_data(feed.pop())
+                continue
             if isinstance(ev, mp.Epilogue):
                 break
             if isinstance(ev, mp.Preamble):
